@@ -109,7 +109,7 @@ class Rec:
 
 
 class MState:
-    __slots__ = ("kind", "start", "mol", "atoms", "ident", "order", "bonds", "hist", "keep", "nmut", "view", "vkind", "confs", "vbonds", "vorder", "cache", "partners")
+    __slots__ = ("kind", "start", "mol", "atoms", "ident", "order", "bonds", "hist", "keep", "nmut", "view", "vkind", "confs", "vbonds", "vorder", "cache", "partners", "vxyz", "vq")
 
     def __init__(self):
         self.kind = None
@@ -129,6 +129,8 @@ class MState:
         self.vorder = None
         self.cache = None
         self.partners = []  # [role, object, snapshot by value]
+        self.vxyz = None  # system V: (conformer, aid) -> coordinate the model expects
+        self.vq = None  # system V: (conformer, aid) -> charge
 
 
 def exc_name(e):
@@ -151,7 +153,7 @@ def _isnum(v):
 # system M : Molecule / Structure
 # =================================================================================================
 class MSys:
-    def __init__(self, ctx, add_elems=("C", "H"), full=True, core=False, label="M"):
+    def __init__(self, ctx, add_elems=("C", "H"), full=True, core=False, label="M", views=False):
         self.ctx = ctx
         self.seed = ctx.seed
         self.pose = POSES[ctx.seed % len(POSES)]
@@ -159,6 +161,7 @@ class MSys:
         self.elem0 = sorted(add_elems)[0]  # the same for every seed: a rotation must not change the op SET
         self.full = full  # thorough alphabet (all pairs, object addressing, per-atom hydrogens)
         self.core = core  # restricted add/del/connect core (deep search)
+        self.views = views  # held-view search: a Substructure is created first and HELD while the parent is edited
         self.quiet = False
         self.label = label
         self._mol2_path = None
@@ -167,7 +170,7 @@ class MSys:
     def viol(self, st, op, symptom, what, extra=None):
         if self.quiet:
             raise HarnessError(f"violation while replaying a validated prefix: {symptom}: {what}; history={st.hist}")
-        sig = f"{self.opclass(op)}:{symptom}"
+        sig = symptom[1:] if symptom.startswith("=") else f"{self.opclass(op)}:{symptom}"  # "=..." : complete signature
         hist = st.hist + [list(op)]
         self.ctx.violation(
             sig,
@@ -208,6 +211,10 @@ class MSys:
             return "del_bond"
         if k == "delbond_bad":
             return "del_bond(invalid)"
+        if k == "hold":
+            return f"hold-view({op[1]})"
+        if k in ("v_translate", "v_setcoords", "v_transform"):
+            return "held-Substructure." + {"v_translate": "translate", "v_setcoords": "coords=", "v_transform": "transform"}[k]
         if k == "setq":
             return "atomic_charges[i]="
         if k == "setxyz":
@@ -504,6 +511,8 @@ class MSys:
         nb = len(st.bonds)
         ops = []
         E = self.add_elems
+        if self.views:
+            return self._rot(self._enabled_views(st, n, nb))
         if self.core:
             ops.append(("add", self.elem0, "ch"))
             for i in range(n):
@@ -584,6 +593,73 @@ class MSys:
         ops.append(("query",))
         return self._rot(ops)
 
+    def _enabled_views(self, st, n, nb):
+        if st.view is None:
+            # the first step creates the view that is then HELD: heavy atoms, an explicit unordered
+            # index list, a single atom
+            return [("hold", w) for w in ("heavy", "idx", "one")] if n >= 1 else []
+        ops = [("add", self.elem0, "ch"), ("new", self.elem0)]
+        for i in range(n):
+            ops.append(("del", "idx", i))
+            ops.append(("del", "obj", i))
+        for l in self._distinct(st, "label"):
+            ops.append(("del", "lbl", l))
+        for e in self._distinct(st, "elem"):
+            ops.append(("del", "elt", e))
+        if n >= 2:
+            ops.append(("connect", 0, n - 1))
+            ops.append(("bond", 0, n - 1))
+        if n >= 1:
+            ops.append(("bond_f1", n - 1))
+            ops.append(("setxyz", 0))
+            ops.append(("setxyz", n - 1))
+        if nb:
+            ops.append(("delbond", 0))
+        for k in range(nb):
+            ops.append(("rmsub", k, 0))
+            ops.append(("rmsub", k, 1))
+        ops.append(("addH",))
+        # reads are checked after EVERY step; writes through the view only while all its atoms live
+        # (HEAD: a view one of whose atoms was deleted raises on access - nothing is defined for it)
+        if all(id(a) in st.ident for a in st.vorder):
+            ops += [("v_translate",), ("v_setcoords",), ("v_transform",)]
+        return ops
+
+    def check_view(self, st, before_ids):
+        """the held view after a step: row k of view.coords is the parent's coordinate of view.atoms[k]"""
+        v = st.view
+        alive = [id(a) in st.ident for a in st.vorder]
+        gone = set(before_ids) - set(st.ident)
+        came = set(st.ident) - set(before_ids)
+        cat = "after-parent-atom-deleted" if gone else ("after-parent-atom-added" if came else "after-edit")
+        try:
+            vat = list(v.atoms)
+        except Exception as e:
+            return f"=held-Substructure:{cat}:atoms-raised", f"view.atoms raised {exc_name(e)}"
+        if len(vat) != len(st.vorder) or any(a is not b for a, b in zip(vat, st.vorder)):
+            return f"=held-Substructure:{cat}:view-atom-list-changed", "the atom list of the held view changed"
+        try:
+            c = v.coords
+        except Exception as e:
+            if all(alive):
+                return f"=held-Substructure:{cat}:view-coords-raised", f"every atom of the view is still in the parent, but view.coords raised {exc_name(e)}: {e}"
+            return None, None  # HEAD's rule for a view that lost an atom: it cannot be read
+        if not isinstance(c, np.ndarray) or c.shape != (len(vat), 3):
+            return f"=held-Substructure:{cat}:view-coords-shape", f"view of {len(vat)} atoms reports coords of shape {getattr(c, 'shape', None)}"
+        rows = c.tolist()
+        for k, a in enumerate(vat):
+            if not alive[k]:
+                continue
+            r = st.atoms[st.ident[id(a)]]
+            row = tuple(rows[k])
+            if r.coord is not UNSPEC and not all(_feq(row[i], r.coord[i]) for i in range(3)):
+                whose = [x for x, r2 in st.atoms.items() if r2.coord is not UNSPEC and all(_feq(row[i], r2.coord[i]) for i in range(3))]
+                return (
+                    f"=held-Substructure:{cat}:view-row-is-not-its-atom's-row",
+                    f"held view ({st.vkind}), row {k}: reports {row}, its atom #{st.ident[id(a)]} is at {r.coord} in the parent (that is the row of atom(s) {whose})",
+                )
+        return None, None
+
     def _rot(self, ops):
         if not ops:
             return ops
@@ -626,7 +702,50 @@ class MSys:
         call = None
         post = None  # routine-specific contract checked after the generic bookkeeping
 
-        if kind == "add":
+        before_ids = set(st.ident)  # python identities of the member atoms (model ids are recycled)
+        if kind == "hold":
+            which = op[1]
+            n = len(real)
+            if which == "heavy":
+                box = []
+                call = lambda: box.append(m.heavy)
+                exp = [a for pos, a in enumerate(real) if st.atoms[aid_at(pos)].elem != "H"]
+            else:
+                sel = ([n - 1, 0] if n >= 2 else [0]) if which == "idx" else [n // 2]
+                box = []
+                call = lambda: box.append(m.substructure(sel))
+                exp = [real[i] for i in sel]
+
+            def predict():
+                st.view = box[0]
+                st.vkind = which
+                st.vorder = list(exp)  # the atom OBJECTS the view was made of, in its order
+
+        elif kind in ("v_translate", "v_setcoords", "v_transform"):
+            v = st.view
+            aids = [st.ident[id(a)] for a in st.vorder]
+            cur = [st.atoms[x].coord for x in aids]
+            if kind == "v_translate":
+                t = (0.5, -1.0, 2.0)
+                newc = [tuple(c[i] + t[i] for i in range(3)) for c in cur]
+                call = lambda: v.translate(list(t))
+            elif kind == "v_transform":
+                R = [[0.0, 1.0, 0.0], [-1.0, 0.0, 0.0], [0.0, 0.0, 1.0]]  # proper quarter turn about z: exact arithmetic
+                newc = [(-c[1], c[0], c[2]) for c in cur]
+                call = lambda: v.transform(R)
+            else:
+                newc = []
+                for x in aids:
+                    b0 = coord_of(x, self.pose)
+                    newc.append((b0[0], b0[1] + 64.0, b0[2]))
+                arr = np.array(newc, dtype=np.float64).reshape(len(newc), 3)
+                call = lambda: setattr(v, "coords", arr)
+
+            def predict():
+                for x, c in zip(aids, newc):
+                    st.atoms[x].coord = c  # exactly the rows of the viewed atoms, nothing else
+
+        elif kind == "add":
             _, e, mode = op
             aid = self._fresh(st)
             a = Atom(e, label=label_of(aid))
@@ -863,10 +982,10 @@ class MSys:
             # the deletions.  Expected value = the model's coordinate of a2 before the call.
             a2_aid = st.ident.get(id(a2))
             a2_xyz = st.atoms[a2_aid].coord if a2_aid in st.atoms else UNSPEC
-            before_ids = set(st.atoms)
+            aids_before = set(st.atoms)
 
             def post():
-                new = [aid for aid in st.atoms if aid not in before_ids]
+                new = [aid for aid in st.atoms if aid not in aids_before]
                 if a2_xyz is UNSPEC or a2_aid in st.atoms or len(new) != 1:
                     return None, None  # some other semantics (a2 kept / nothing created): nothing is demanded here
                 real_now = list(m.atoms)
@@ -935,8 +1054,10 @@ class MSys:
                 what = f"after the call raised {exc_name(raised)}: {what}"
             if sym is None and st.partners:
                 sym, what = self.check_partners(st)
+            if sym is None and st.view is not None and self.views:
+                sym, what = self.check_view(st, before_ids)
         if sym:
-            self.viol(st, op, prefix + sym, what)
+            self.viol(st, op, sym if sym.startswith("=") else prefix + sym, what)
             st.hist.append(hist_op)
             return False
         st.hist.append(hist_op)
@@ -1002,7 +1123,10 @@ class MSys:
         ids = tuple(st.order)
         bonds = tuple((st.ident.get(id(b.a1)), st.ident.get(id(b.a2))) for b in m.bonds)
         extra = (str(m.coords.dtype), str(m.atomic_charges.dtype) if st.kind == "Molecule" else None)
-        return (ids, bonds, extra, st.start if st.partners else None, self.observe(st))
+        held = None
+        if self.views and st.view is not None:
+            held = (st.vkind, tuple(st.ident.get(id(a), "gone") for a in st.vorder))
+        return (ids, bonds, extra, st.start if st.partners else None, held, self.observe(st))
 
 
 class _Sym(Exception):
@@ -1081,6 +1205,9 @@ class VSys(MSys):
         st.vorder = sel
         st.bonds = [_pair(a, b) for a, b in bonds]  # owner's bonds
         st.vbonds = [p for p in st.bonds if p[0] in sel and p[1] in sel]  # bonds the view lists
+        nconf = st.confs or 1
+        st.vxyz = {(k, a): coord_of(a, self.pose, k) for k in range(nconf) for a in range(len(real))}
+        st.vq = {(k, a): charge_of(a, k) for k in range(nconf) for a in range(len(real))}
         sym, what = self.verify(st)
         if sym:
             self.viol(st, op, sym, what)
@@ -1111,20 +1238,30 @@ class VSys(MSys):
             if o.atomic_charges.shape != (st.confs, n):
                 return "charges!=atoms", f"ensemble has {n} atoms, charges {o.atomic_charges.shape}"
             conf = 1
+        # the owner's arrays, every conformer, every atom: a write (through the view or on the owner) changes
+        # exactly the rows it names
+        oc = o.coords.reshape((st.confs or 1), n, 3).tolist()
+        oq = o.atomic_charges.reshape((st.confs or 1), n).tolist()
+        for k in range(st.confs or 1):
+            for pos, aid in enumerate(st.order):
+                if tuple(oc[k][pos]) != st.vxyz[(k, aid)]:
+                    return "owner-coord-misaligned", f"owner, conformer {k}, atom #{aid}: row {oc[k][pos]} != expected {st.vxyz[(k, aid)]}"
+                if oq[k][pos] != st.vq[(k, aid)]:
+                    return "owner-charge-misaligned", f"owner, conformer {k}, atom #{aid}: charge {oq[k][pos]} != expected {st.vq[(k, aid)]}"
         c = v.coords
         if not isinstance(c, np.ndarray) or c.shape != (nv, 3) or c.dtype.kind != "f":
             return "coords-rows!=atoms", f"view has {nv} atoms, coords {getattr(c, 'shape', None)}"
         for pos, aid in enumerate(vids):
-            exp = coord_of(aid, self.pose, conf)
+            exp = st.vxyz[(conf, aid)]
             if tuple(float(x) for x in c[pos]) != exp:
-                return "coord-misaligned", f"view atom #{aid}: row {c[pos].tolist()} != given {exp}"
+                return "coord-misaligned", f"view atom #{aid}: row {c[pos].tolist()} != expected {exp}"
         if st.confs is not None:
             q = v.atomic_charges
             if not isinstance(q, np.ndarray) or q.shape != (nv,) or q.dtype.kind not in "fiu":
                 return "charges!=atoms", f"view has {nv} atoms, charges {getattr(q, 'shape', None)} {getattr(q, 'dtype', None)}"
             for pos, aid in enumerate(vids):
-                if float(q[pos]) != charge_of(aid, conf):
-                    return "charge-misaligned", f"view atom #{aid}: charge {float(q[pos])} != given {charge_of(aid, conf)}"
+                if float(q[pos]) != st.vq[(conf, aid)]:
+                    return "charge-misaligned", f"view atom #{aid}: charge {float(q[pos])} != expected {st.vq[(conf, aid)]}"
         # bonds
         for who, obj, exp, members in (("view", v, st.vbonds, set(vids)), ("owner", o, st.bonds, set(st.order))):
             pairs = []
@@ -1157,8 +1294,27 @@ class VSys(MSys):
                 ops.append(("bond", i, j))
         for k in range(len(st.vbonds)):
             ops.append(("delbond", k))
+        # the view is HELD while coordinates / charges are written on the owner and through the view
+        n = len(st.order)
+        ops.append(("o_translate",))
+        for k in range(st.confs or 1):
+            ops.append(("o_setxyz", k, 0))
+            ops.append(("o_setxyz", k, n - 1))
+        ops.append(("v_translate",))
+        ops.append(("v_setcoords",))
+        if st.confs is not None:
+            ops.append(("v_setxyz", 0))
+            ops.append(("v_setxyz", nv - 1))
+            ops.append(("v_setq", 0))
+            ops.append(("v_setq", nv - 1))
         ops.append(("query",))
         return self._rot(ops)
+
+    @staticmethod
+    def opclass(op):
+        k = op[0]
+        names = {"o_translate": "owner.translate", "o_setxyz": "owner.coords[i]=", "v_translate": "translate", "v_setcoords": "coords=", "v_setxyz": "coords[i]=", "v_setq": "atomic_charges[i]="}
+        return names.get(k) or MSys.opclass(op)
 
     def step(self, st, op):
         kind = op[0]
@@ -1169,6 +1325,9 @@ class VSys(MSys):
         if not self.quiet:
             self.ctx.count(evaluations=1, traces=1)
         v = st.view
+        o = st.mol
+        vconf = 1 if st.confs is not None else 0
+        T = (0.5, -1.0, 2.0)
         own_bonds = st.confs is not None  # a conformer edits the ensemble's bond list, a substructure its own
         if kind == "query":
             real = list(v.atoms)
@@ -1206,6 +1365,44 @@ class VSys(MSys):
                 st.vbonds.remove(pr)
                 if own_bonds:
                     st.bonds.remove(pr)
+            elif kind == "o_translate":
+                o.translate(list(T))
+                for key, c in st.vxyz.items():
+                    st.vxyz[key] = tuple(c[i] + T[i] for i in range(3))
+            elif kind == "o_setxyz":
+                _, k, i = op
+                aid = st.order[i]
+                b0 = coord_of(aid, self.pose, k)
+                val = (b0[0], b0[1] + 64.0, b0[2])
+                if st.confs is None:
+                    o.coords[i] = list(val)
+                else:
+                    o.coords[k, i] = list(val)
+                st.vxyz[(k, aid)] = val
+            elif kind == "v_translate":
+                v.translate(list(T))
+                for aid in st.vorder:
+                    c = st.vxyz[(vconf, aid)]
+                    st.vxyz[(vconf, aid)] = tuple(c[i] + T[i] for i in range(3))
+            elif kind == "v_setcoords":
+                vals = []
+                for aid in st.vorder:
+                    b0 = coord_of(aid, self.pose, vconf)
+                    vals.append((b0[0] + 128.0, b0[1], b0[2]))
+                v.coords = np.array(vals, dtype=np.float64)
+                for aid, val in zip(st.vorder, vals):
+                    st.vxyz[(vconf, aid)] = val
+            elif kind == "v_setxyz":
+                aid = st.vorder[op[1]]
+                b0 = coord_of(aid, self.pose, vconf)
+                val = (b0[0], b0[1], b0[2] + 256.0)
+                v.coords[op[1]] = list(val)  # a Conformer's coords are a live view of the ensemble's block
+                st.vxyz[(vconf, aid)] = val
+            elif kind == "v_setq":
+                aid = st.vorder[op[1]]
+                val = charge_of(aid, vconf) + 16.0
+                v.atomic_charges[op[1]] = val
+                st.vq[(vconf, aid)] = val
             else:  # pragma: no cover
                 raise HarnessError(f"unknown view op {op}")
         except HarnessError:
@@ -1231,7 +1428,7 @@ class VSys(MSys):
     def observe(self, st):
         o, v = st.mol, st.view
         pos = {id(a): i for i, a in enumerate(o.atoms)}
-        out = [st.vkind, o.n_atoms, o.n_bonds, v.n_atoms, v.n_bonds, repr(v.coords.tolist())]
+        out = [st.vkind, o.n_atoms, o.n_bonds, v.n_atoms, v.n_bonds, repr(v.coords.tolist()), repr(o.coords.tolist()), repr(o.atomic_charges.tolist())]
         out.append(tuple((pos.get(id(b.a1)), pos.get(id(b.a2)), b.parent is o, b.parent is v) for b in o.bonds))
         out.append(tuple((pos.get(id(b.a1)), pos.get(id(b.a2)), b.parent is o, b.parent is v) for b in v.bonds))
         return tuple(out)
@@ -1352,6 +1549,16 @@ def _repro_of(hist, pose):
             L.append(f"f = Atom('F'); bl = {mk}")
             L.append(f"m.extend_bonds({wrap})" if op[1] == "extend" else f"m.append_bonds(*{wrap})")
             L.append("print('bond parents', [b.parent is m for b in m.bonds])")
+        elif k == "hold":
+            sel = {"heavy": "m.heavy", "idx": "m.substructure([m.n_atoms - 1, 0] if m.n_atoms > 1 else [0])", "one": "m.substructure([m.n_atoms // 2])"}[op[1]]
+            L.append(f"view = {sel}   # HELD from here on")
+            L.append("held = list(view.atoms)")
+        elif k == "v_translate":
+            L.append("view.translate([0.5, -1.0, 2.0])")
+        elif k == "v_transform":
+            L.append("view.transform([[0.0, 1.0, 0.0], [-1.0, 0.0, 0.0], [0.0, 0.0, 1.0]])")
+        elif k == "v_setcoords":
+            L.append("view.coords = np.arange(3.0 * len(held)).reshape(-1, 3) + 100")
         elif k == "setq":
             L.append(f"m.atomic_charges[{op[1]}] = 8.5   # in-place write")
         elif k == "setxyz":
@@ -1368,6 +1575,7 @@ def _repro_of(hist, pose):
             L.append(f"m.add_implicit_hydrogens(m.atoms[{op[1]}])")
         elif k == "query":
             L.append("print([(a.label, a.element, m.get_atom_index(a.element), m.get_atom_index(a.label)) for a in m.atoms])")
+    L.append("if 'view' in dir():\n    try: print('view.coords', view.coords.tolist(), ' parent rows of its atoms', [m.coords[m.atoms.index(a)].tolist() if a in m.atoms else None for a in held])\n    except Exception as e: print('view.coords raised', type(e).__name__, e)")
     for v in ("src", "mid", "clone", "twin"):
         L.append(f"if '{v}' in dir(): print('partner {v}:', {v}.coords.tolist(), getattr({v}, 'atomic_charges', None))")
     L.append("print('atoms', [(a.element.symbol, a.label, a.idx) for a in m.atoms])")
@@ -1438,6 +1646,11 @@ def run(ctx):
         "(the property holds for every molecule alive, and the caller's arrays were never handed over)",
         "operations that take an iterable of bonds are run with every kind of iterable (list, tuple, set, generator, iterator, "
         "map, empty); the result must not depend on the kind",
+        "held views: a Substructure (heavy atoms / explicit unordered index list / single atom) is created and HELD while the parent "
+        "is edited; after every step row k of view.coords must be the parent's coordinate of view.atoms[k], and translate / transform "
+        "/ coords= through the view change exactly the rows of its atoms.  HEAD's rule for a view one of whose atoms was deleted from "
+        "the parent is that it raises on access: accepted (if it does answer, the rows of its surviving atoms must be right); writes "
+        "through such a view are not generated.  A Substructure exposes no partial charges",
         "stale user-held row views across add/del are not part of the claim; a row view handed INTO add_atom (add an atom where atom i "
         "is) must be copied: the new atom keeps that value",
         "an atom that enters without an explicit charge (add_atom(a, xyz), new_atom, an end point adopted by append_bond(s) / "
@@ -1465,7 +1678,7 @@ def run(ctx):
     mk_red = lambda c: MSys(c, add_elems=elems[:2] if not thorough else sorted(elems)[:2], full=False, label="Mr")
     mk_core = lambda c: MSys(c, add_elems=elems, core=True, label="Mc")
     tiny = [h for h in inits if h[0][2] in ("empty", "chain3")]
-    small = [h for h in inits if h[0][2] in ("empty", "chain3", "unpickled") or (h[0][1], h[0][2]) == ("Molecule", "star4")]
+    small = [h for h in inits if (h[0][1] == "Molecule" and h[0][2] in ("empty", "chain3", "unpickled")) or (h[0][1], h[0][2]) == ("Structure", "chain3")]
     name = lambda hs: [f"{h[0][1]}/{h[0][2]}" for h in hs]
     mark = [ctx.transitions, 0]
 
@@ -1514,8 +1727,18 @@ def run(ctx):
         ctx.bound["core_starts"] = name(small)
         phase("3_core")
 
+    # (3b) a Substructure is created first and HELD while the parent is edited
+    hv = [h for h in inits if (h[0][1], h[0][2]) in (("Molecule", "chain3"), ("Molecule", "star4"), ("Structure", "mol2"))]
+    d_hv = 4 if thorough else 3
+    seqx.pbfs(ctx, lambda c: MSys(c, add_elems=elems, views=True, label="Mv"), hv, d_hv, nproc=nproc, chunk=16)
+    if not thorough:
+        seqx.pbfs(ctx, lambda c: MSys(c, add_elems=elems, views=True, label="Mv"), hv[:1], 4, nproc=nproc, chunk=16)
+    ctx.bound["held_view_depth"] = d_hv if thorough else "3 from 3 start states, 4 from Molecule/chain3"
+    ctx.bound["held_view_starts"] = name(hv)
+    phase("3b_held_views")
+
     vin = _inits_V(ctx)
-    dv = 5 if thorough else 4
+    dv = 4 if thorough else 3
     seqx.pbfs(ctx, lambda c: VSys(c, label="V"), vin, dv, nproc=nproc, chunk=32)
     ctx.bound["V_depth"] = dv
     phase("4_views")
@@ -1528,6 +1751,7 @@ def replay(ctx, case):
     hist = [tuple(o) for o in case["history"]]
     ctx.seed = case.get("seed", ctx.seed)
     sm = (VSys if case.get("sys") == "V" else MSys)(ctx, add_elems=("C", "H", "O"), label="replay")
+    sm.views = any(op[0] == "hold" for op in hist)
     st = MState()
     for op in hist:
         if op[0] == "query":
